@@ -186,6 +186,9 @@ pub enum Op {
     SetChunk { n: u16 },
     /// stop workload and faults, complete every exchange, check quiescence
     Drain,
+    /// the transport is lost and the application forgets everything a crash would lose:
+    /// unused ids and exchanges whose PUBREC arrived but whose PUBREL was never sent
+    Forget,
 }
 
 #[derive(Clone, Copy, Debug, PartialEq, Eq)]
@@ -478,7 +481,7 @@ impl Solo {
                             any = true;
                             if let Some(id) = rel {
                                 // the failed write kills the connection; its flow-control bookkeeping is void
-                                self.w.m.flow_ambiguous = true;
+                                self.w.write_failed();
                                 let r = self.w.release(*id);
                                 self.handle(&r);
                                 self.w.stats.hit("write_fail_released");
@@ -795,7 +798,7 @@ impl Solo {
                     return;
                 }
                 // adversarial traffic: from here on only the model-free oracles decide
-                self.w.lenient = true;
+                self.w.set_lenient();
                 self.fault("adversarial_frame");
                 self.peer_bytes(bytes);
             }
@@ -803,6 +806,21 @@ impl Solo {
                 self.chunk = *n;
             }
             Op::Drain => self.drain(),
+            Op::Forget => {
+                if self.w.m.st != St::Disc || self.w.want_close {
+                    self.do_close();
+                }
+                let mut ids: Vec<u32> = self.owned.iter().cloned().collect();
+                ids.extend(self.w.m.out.iter().filter(|o| o.stage == Stage::GotPubrec).map(|o| o.id));
+                for id in ids {
+                    if self.w.m.ids.contains(&id) {
+                        let evs = self.w.release(id);
+                        self.handle(&evs);
+                    }
+                }
+                self.owned.clear();
+                self.inbox.clear();
+            }
         }
     }
 
